@@ -72,7 +72,7 @@ PROPS['C14'] = dict(
 )
 
 PROPS['C19'] = dict(
-    families=[dict(name='c19-store', quick=2500, thorough=120000)],
+    families=[dict(name='c19-store', quick=2500, thorough=120000), dict(name='c19-matchers', quick=6000, thorough=200000)],
     slice=40,
     rule='random histories (2-61 ops) of AddQuad/DeleteQuad/HasQuad/NewQuadIterator and GetGraph(..).AddTriple/DeleteTriple/HasTriple/NewTripleIterator over a universe of 4 IRIs, '
          '4 blank nodes of two factories (equal counters in different factories), 10 literals differing only in datatype / tag / direction / lexical form incl. forms mimicking the literal key syntax, '
